@@ -1,5 +1,5 @@
 """C04 — user-controlled text cannot change the token structure of emitted SQL.  DESIGN.md 4/C04."""
-import json, os
+import json, os, re
 from lib.vcheck import ToolFailure, validate_histories, write_ndjson
 
 AREA = "Sql"
@@ -45,8 +45,12 @@ def run(ctx):
     r = ctx.tlc(AREA, "PgLexCheck", cfg_text=check_cfg(3 if quick else 4, False), workers=4, timeout=3000)
     if not r.clean:
         raise ToolFailure("PgLexCheck: literal / LIKE / fragment / quoted-identifier quoting is not safe in the model:\n" + r.out[-2000:])
-    ctx.cov["states"] += 15 ** (3 if quick else 4)
-    ctx.cov["transitions"] += 15 ** (3 if quick else 4)
+    m = re.search(r'<<"payloads", (\d+)>>', r.out)
+    if not m:
+        raise ToolFailure("PgLexCheck did not report the number of payloads it checked:\n" + r.out[-1500:])
+    # every payload is one evaluated case of each quoting mechanism (literal, three LIKE forms, fragment, quoted identifier)
+    ctx.cov["states"] += int(m.group(1))
+    ctx.cov["transitions"] += int(m.group(1)) * 6
     if not quick:
         r2 = ctx.tlc(AREA, "PgLexCheck", cfg_text=check_cfg(2, True), workers=4, timeout=900, copy_suffix="alias")
         if not r2.assumption_false:
